@@ -1,0 +1,25 @@
+//go:build verif
+
+// Machine-checked contracts for this package (comment-only; compiled only with
+// the build tag `verif`). Read by /verif/engine (govc); see /verif/DESIGN.md.
+package codegen
+
+// ---- pipeline-constant conversion (C14) -------------------------------------------------
+//
+// WebGPU: a pipeline-overridable constant supplied as a double converts to the
+// override's type; bool: zero and NaN are false; i32/u32: the truncated value
+// must be representable (the whole i32 / u32 range), otherwise it is an error
+// (nil here); f32: rounded to binary32.
+//
+//@ func scalarValueToLiteral
+//@   mode bv
+//@   tags C14
+//@   ensures [bool] scalar.Kind == ir.ScalarBool ==> is(result, ir.LiteralBool) && (bool(result.(ir.LiteralBool)) <==> (!fpeq(value, 0.0) && !isnan(value)))
+//@   ensures [i32-in-range] scalar.Kind == ir.ScalarSint && !isnan(value) && !isinf(value) && fptrunc(value) >= -2147483648.0 && fptrunc(value) <= 2147483647.0 ==> is(result, ir.LiteralI32) && int32(result.(ir.LiteralI32)) == int32(fptrunc(value))
+//@   ensures [i32-out-of-range] scalar.Kind == ir.ScalarSint && (isnan(value) || isinf(value) || fptrunc(value) < -2147483648.0 || fptrunc(value) > 2147483647.0) ==> isnil(result)
+//@   ensures [u32-in-range] scalar.Kind == ir.ScalarUint && !isnan(value) && !isinf(value) && fptrunc(value) >= 0.0 && fptrunc(value) <= 4294967295.0 ==> is(result, ir.LiteralU32) && uint32(result.(ir.LiteralU32)) == uint32(fptrunc(value))
+//@   ensures [u32-out-of-range] scalar.Kind == ir.ScalarUint && (isnan(value) || isinf(value) || fptrunc(value) < 0.0 || fptrunc(value) > 4294967295.0) ==> isnil(result)
+//@   ensures [f32] scalar.Kind == ir.ScalarFloat && scalar.Width != 8 ==> is(result, ir.LiteralF32) && same(float32(result.(ir.LiteralF32)), float32(value))
+//@   ensures [f64] scalar.Kind == ir.ScalarFloat && scalar.Width == 8 ==> is(result, ir.LiteralF64) && same(float64(result.(ir.LiteralF64)), value)
+//@   pure
+//@   nopanic
